@@ -23,4 +23,9 @@ mcSetup == <<
   [a |-> "recv", x |-> "s", fs |-> <<[t |-> "SET", ack |-> FALSE, s |-> <<<<4, 10>>>>]>>],
   [a |-> "recv", x |-> "s", fs |-> <<[t |-> "SET", ack |-> TRUE, s |-> <<>>]>>] >>
 mcQSids == <<1, 3>>
+mcCfgC == DefaultCfg
+mcCfgS == DefaultCfg
+mcMaxClosed == 2
+mcMaxChan == 3
+mcMaxK == 1
 =============================================================================
